@@ -1273,3 +1273,31 @@ func decoderMethods(p *Program, arg ssa.Value, _ string) []*ssa.Function {
 	walk(arg.Type(), 0)
 	return out
 }
+
+// isNilTestOfField: the condition is `X == nil` / `X != nil` where X is read directly from
+// field `field` of a parameter (no call in between). holds = X == nil.
+func isNilTestOfField(ce condEdge, field string) bool {
+	if ce.binop == nil || !ce.isEqNeq {
+		return false
+	}
+	var x ssa.Value
+	if isNilConst(ce.binop.Y) {
+		x = ce.binop.X
+	} else if isNilConst(ce.binop.X) {
+		x = ce.binop.Y
+	} else {
+		return false
+	}
+	has := false
+	for _, rt := range Origins(x, &originOpts{stop: map[string]bool{}}) {
+		switch rt.Kind {
+		case "field":
+			if rt.Desc == field {
+				has = true
+			}
+		case "call", "via", "unknown", "global":
+			return false
+		}
+	}
+	return has
+}
